@@ -218,6 +218,18 @@ def generic_run(pid, params, knobs=None, policy='complete', plan_kw=None,
     }
 
 
+def reload_monitors(seed, tag, every=3):
+    """For one case in `every`: a driver that reloads the unchanged
+    definition once in the middle of the run (every proxy is replaced by a
+    successor that must carry status, submit number, outputs, timers)."""
+    if seed % every:
+        return []
+    from ..e1 import CommandDriver
+    r_ = random.Random(derive_seed(seed, tag + '-reload'))
+    return [CommandDriver([{'iter': r_.randint(2, 30), 'slot': 0,
+                            'name': 'reload_workflow', 'kwargs': {}}])]
+
+
 def final_db_outputs(res):
     """Final completed outputs per instance as recorded in the run DB
     (read before cleanup by FinalDbMonitor)."""
